@@ -131,8 +131,8 @@ def usedNamespaces (tns : Ns) (fields : List Field) : List Ns :=
       | some ns => if acc.any (fun u => u.abbreviation == ns.abbreviation) then acc else acc ++ [ns]
       | none => acc) [tns]
 
-/-- `write_complex_type` -/
-def writeComplexType (p : CProps) : Chunks :=
+/-- `write_complex_type`, up to and including the head of the `check_restrictions` impl -/
+def complexPrefix (p : CProps) : Chunks :=
   let rustName := xmlNameToRustName p.xmlName
   writeCommentLines p.comment
   ++ [deriveLine]
@@ -147,9 +147,15 @@ def writeComplexType (p : CProps) : Chunks :=
   ++ p.fields.flatMap writeField
   ++ ["}\n"]
   ++ writeCheckHeader rustName none
-  ++ p.fields.map (fun f => "     self." ++ f.rustName ++ ".check_restrictions(restrictions.clone())?;\n")
-  ++ ["    drop(restrictions);\n", "    Ok(())\n"]
-  ++ writeCheckFooter
+
+/-- the delegation of the check to every member, in order -/
+def complexChecks (p : CProps) : Chunks :=
+  p.fields.map (fun f => "     self." ++ f.rustName ++ ".check_restrictions(restrictions.clone())?;\n")
+
+def complexSuffix : Chunks := ["    drop(restrictions);\n", "    Ok(())\n"] ++ writeCheckFooter
+
+/-- `write_complex_type` -/
+def writeComplexType (p : CProps) : Chunks := complexPrefix p ++ complexChecks p ++ complexSuffix
 
 /-- `impl WriteXml for RustType` / `RustNode` -/
 def writeNode (n : RNode) : Chunks :=
